@@ -6,6 +6,9 @@
     `P <coeff> <factors>`                       obj.to_value(target)
     `T <x> <coeff> <factors> <coeff> <factors>` unyt_quantity(x, u).to_value(target)
     `I <x> <coeff> <factors> <coeff> <factors>` t = unyt_array(x, u); t.convert_to_units(target)
+    `PB <system>`                               obj.in_base(system)
+    `TB <x> <coeff> <factors> <system>`         unyt_quantity(x, u).in_base(system)
+    `IB <x> <coeff> <factors> <system>`         t = unyt_array(x, u); t.convert_to_base(system)
   reply: `ok`, one field per op (`<bits>` or `err:<Class>`), then the final buffer value.
 
   `c03.routes <x bits> <coeff> <factors> <coeff> <factors>`: `x [A]` to `B` on the copying route
@@ -57,6 +60,22 @@ def parseOps (pre : Prefixes Float) : Nat → Lut Float → List String → Opti
     let (tg, t2) ← unitOf pre t1 c f
     let (ops, t3) ← parseOps pre n t2 rest
     some (.tempConvert x u tg :: ops, t3)
+  | n + 1, t, "PB" :: sys :: rest => do
+    let S ← findSystem Float sys
+    let (ops, t2) ← parseOps pre n t rest
+    some (.peekBase S :: ops, t2)
+  | n + 1, t, "TB" :: x :: cu :: fu :: sys :: rest => do
+    let x ← fb x
+    let (u, t1) ← unitOf pre t cu fu
+    let S ← findSystem Float sys
+    let (ops, t2) ← parseOps pre n t1 rest
+    some (.tempBase S x u :: ops, t2)
+  | n + 1, t, "IB" :: x :: cu :: fu :: sys :: rest => do
+    let x ← fb x
+    let (u, t1) ← unitOf pre t cu fu
+    let S ← findSystem Float sys
+    let (ops, t2) ← parseOps pre n t1 rest
+    some (.tempConvertBase S x u :: ops, t2)
   | _, _, _ => none
 
 def outStr : Except Err Float → String
@@ -73,7 +92,7 @@ def opsC03 : Handler := fun st fields =>
     | some x, some (u, t1) =>
       match parseOps st.pre (rest.length + 1) t1 rest with
       | some (ops, t2) =>
-        let r := runHist st.pre t2 (x, u) ops
+        let r := runHist st.pre t2 (defaultEm Float) (x, u) ops
         some (st, "ok\t" ++ "\t".intercalate (r.2.map outStr) ++ s!"\t{bitsStr r.1.1}")
       | none => some (st, "err\tparse")
     | _, _ => some (st, "err\tparse")
